@@ -26,6 +26,13 @@ use serde_json::{Value, json};
 use crate::{Certs, SMALL_WINDOW, Tp, connect_pair, fill, matches, with_watchdog};
 
 pub const WATCHDOG: Duration = Duration::from_secs(60);
+/// after two programs hung for the full watchdog the verdict is established: be less patient
+const SHORT_WATCHDOG: Duration = Duration::from_secs(8);
+static FULL_HANGS: std::sync::atomic::AtomicUsize = std::sync::atomic::AtomicUsize::new(0);
+
+fn watchdog() -> Duration {
+    if FULL_HANGS.load(std::sync::atomic::Ordering::Relaxed) >= 2 { SHORT_WATCHDOG } else { WATCHDOG }
+}
 const SIZES: [usize; 3] = [1, 1200, 70_000];
 /// streams 1..=3 are client -> server, stream s+ECHO is the reply direction of bidirectional s
 const ECHO: u32 = 3;
@@ -638,7 +645,11 @@ async fn run_program(env: &mut Option<Env>, prog: &Value, rep: &mut Report, trac
     }
 
     let all = futures_util::future::join_all(handles.iter_mut());
-    let finished = with_watchdog(WATCHDOG, all).await.is_some();
+    let wd = watchdog();
+    let finished = with_watchdog(wd, all).await.is_some();
+    if !finished && wd >= WATCHDOG {
+        FULL_HANGS.fetch_add(1, std::sync::atomic::Ordering::Relaxed);
+    }
     if finished && dgrams > 0 {
         // datagrams are unreliable: wait a little for stragglers, never insist
         let mut waited = 0;
@@ -658,7 +669,7 @@ async fn run_program(env: &mut Option<Env>, prog: &Value, rep: &mut Report, trac
         let mut l = ctx.0.borrow_mut();
         if !finished {
             let open: Vec<String> = l.obs.iter().map(|(s, o)| format!("s{s}:w{}r{}f{}e{}", o.written, o.read, o.fin, o.eof)).collect();
-            l.violation("hang", format!("stream tasks did not complete within {WATCHDOG:?} (closed={was_closed}): {open:?}"));
+            l.violation("hang", format!("stream tasks did not complete within {wd:?} (closed={was_closed}): {open:?}"));
         }
         if finished && !was_closed {
             for (i, sp) in specs.iter().enumerate() {
@@ -688,7 +699,7 @@ async fn run_program(env: &mut Option<Env>, prog: &Value, rep: &mut Report, trac
     // end of program: close, after which the datagram tasks (blocked in recv) must end as well
     c.close(VarInt::from_u32(0), b"done");
     let all = futures_util::future::join_all(dg_handles.iter_mut());
-    if with_watchdog(WATCHDOG, all).await.is_none() {
+    if with_watchdog(watchdog(), all).await.is_none() {
         ctx.0.borrow_mut().violation("hang", "datagram tasks did not end after the connection was closed".into());
     }
     drop(handles);
